@@ -122,6 +122,9 @@ func (in *Injector) step(op string) (Mode, int) {
 
 // Do runs f as one fault point named op.
 func (in *Injector) Do(op string, f func() error) error {
+	if in == nil {
+		return f()
+	}
 	mode, n := in.step(op)
 	switch mode {
 	case Err:
@@ -141,12 +144,30 @@ func (in *Injector) Do(op string, f func() error) error {
 type DB struct {
 	inner basedb.Database
 	in    *Injector
+	ns    []byte // optional namespace prepended to every prefix (many independent stores in one Badger)
 }
 
 var _ basedb.Database = (*DB)(nil)
 
 // Wrap wraps inner; all counted calls go through in.
 func Wrap(inner basedb.Database, in *Injector) *DB { return &DB{inner: inner, in: in} }
+
+// WrapNS is Wrap with a namespace: every prefix is passed to inner as ns+prefix, so that many
+// independent logical stores can share one physical Badger instance (opening an in-memory Badger
+// allocates and clears a 64 MB arena, far more than a test case costs). The code under test sees
+// exactly the keys it wrote: Badger trims the full (namespaced) prefix from listed keys.
+func WrapNS(inner basedb.Database, in *Injector, ns []byte) *DB {
+	return &DB{inner: inner, in: in, ns: append([]byte(nil), ns...)}
+}
+
+func nsp(ns, prefix []byte) []byte {
+	if len(ns) == 0 {
+		return prefix
+	}
+	out := make([]byte, 0, len(ns)+len(prefix)) // cap == len, like the literals the storages pass
+	out = append(out, ns...)
+	return append(out, prefix...)
+}
 
 // Inner returns the wrapped database.
 func (d *DB) Inner() basedb.Database { return d.inner }
@@ -165,43 +186,43 @@ func name(op string, prefix, key []byte) string {
 	return op + " " + string(b)
 }
 
-func (d *DB) Get(prefix []byte, key []byte) (basedb.Obj, bool, error) { return d.inner.Get(prefix, key) }
+func (d *DB) Get(prefix []byte, key []byte) (basedb.Obj, bool, error) { return d.inner.Get(nsp(d.ns, prefix), key) }
 func (d *DB) GetMany(prefix []byte, keys [][]byte, it func(basedb.Obj) error) error {
-	return d.inner.GetMany(prefix, keys, it)
+	return d.inner.GetMany(nsp(d.ns, prefix), keys, it)
 }
-func (d *DB) GetAll(prefix []byte, h func(int, basedb.Obj) error) error { return d.inner.GetAll(prefix, h) }
-func (d *DB) CountPrefix(prefix []byte) (int64, error)                  { return d.inner.CountPrefix(prefix) }
-func (d *DB) BeginRead() basedb.ReadTxn                                 { return d.inner.BeginRead() }
+func (d *DB) GetAll(prefix []byte, h func(int, basedb.Obj) error) error { return d.inner.GetAll(nsp(d.ns, prefix), h) }
+func (d *DB) CountPrefix(prefix []byte) (int64, error)                  { return d.inner.CountPrefix(nsp(d.ns, prefix)) }
+func (d *DB) BeginRead() basedb.ReadTxn                                 { return &readTxn{inner: d.inner.BeginRead(), ns: d.ns} }
 func (d *DB) Close() error                                              { return d.inner.Close() }
 
 func (d *DB) Set(prefix []byte, key []byte, value []byte) error {
-	return d.in.Do(name("db.Set", prefix, key), func() error { return d.inner.Set(prefix, key, value) })
+	return d.in.Do(name("db.Set", prefix, key), func() error { return d.inner.Set(nsp(d.ns, prefix), key, value) })
 }
 
 func (d *DB) SetMany(prefix []byte, n int, next func(int) (basedb.Obj, error)) error {
-	return d.in.Do(name("db.SetMany", prefix, nil), func() error { return d.inner.SetMany(prefix, n, next) })
+	return d.in.Do(name("db.SetMany", prefix, nil), func() error { return d.inner.SetMany(nsp(d.ns, prefix), n, next) })
 }
 
 func (d *DB) Delete(prefix []byte, key []byte) error {
-	return d.in.Do(name("db.Delete", prefix, key), func() error { return d.inner.Delete(prefix, key) })
+	return d.in.Do(name("db.Delete", prefix, key), func() error { return d.inner.Delete(nsp(d.ns, prefix), key) })
 }
 
 func (d *DB) DeletePrefix(prefix []byte) (int, error) {
 	var n int
 	err := d.in.Do(name("db.DeletePrefix", prefix, nil), func() error {
 		var err error
-		n, err = d.inner.DeletePrefix(prefix)
+		n, err = d.inner.DeletePrefix(nsp(d.ns, prefix))
 		return err
 	})
 	return n, err
 }
 
 func (d *DB) DropPrefix(prefix []byte) error {
-	return d.in.Do(name("db.DropPrefix", prefix, nil), func() error { return d.inner.DropPrefix(prefix) })
+	return d.in.Do(name("db.DropPrefix", prefix, nil), func() error { return d.inner.DropPrefix(nsp(d.ns, prefix)) })
 }
 
 // Begin starts a real read-write transaction and wraps it.
-func (d *DB) Begin() basedb.Txn { return &Txn{inner: d.inner.Begin(), in: d.in} }
+func (d *DB) Begin() basedb.Txn { return &Txn{inner: d.inner.Begin(), in: d.in, ns: d.ns} }
 
 // Using mirrors BadgerDB.Using: the given ReadWriter, or the (wrapped) database when nil.
 func (d *DB) Using(rw basedb.ReadWriter) basedb.ReadWriter {
@@ -222,7 +243,7 @@ func (d *DB) UsingReader(r basedb.Reader) basedb.Reader {
 // Update has badger's Update semantics (begin, fn, commit on success, discard otherwise); the writes
 // inside fn and the final commit are counted points.
 func (d *DB) Update(fn func(basedb.Txn) error) error {
-	t := &Txn{inner: d.inner.Begin(), in: d.in}
+	t := &Txn{inner: d.inner.Begin(), in: d.in, ns: d.ns}
 	defer t.Discard()
 	if err := fn(t); err != nil {
 		return err
@@ -236,29 +257,47 @@ func (d *DB) Update(fn func(basedb.Txn) error) error {
 type Txn struct {
 	inner basedb.Txn
 	in    *Injector
+	ns    []byte
 }
 
 var _ basedb.Txn = (*Txn)(nil)
 
-func (t *Txn) Get(prefix []byte, key []byte) (basedb.Obj, bool, error) { return t.inner.Get(prefix, key) }
+func (t *Txn) Get(prefix []byte, key []byte) (basedb.Obj, bool, error) { return t.inner.Get(nsp(t.ns, prefix), key) }
 func (t *Txn) GetMany(prefix []byte, keys [][]byte, it func(basedb.Obj) error) error {
-	return t.inner.GetMany(prefix, keys, it)
+	return t.inner.GetMany(nsp(t.ns, prefix), keys, it)
 }
-func (t *Txn) GetAll(prefix []byte, h func(int, basedb.Obj) error) error { return t.inner.GetAll(prefix, h) }
+func (t *Txn) GetAll(prefix []byte, h func(int, basedb.Obj) error) error { return t.inner.GetAll(nsp(t.ns, prefix), h) }
 func (t *Txn) Discard()                                                  { t.inner.Discard() }
 
 func (t *Txn) Set(prefix []byte, key []byte, value []byte) error {
-	return t.in.Do(name("txn.Set", prefix, key), func() error { return t.inner.Set(prefix, key, value) })
+	return t.in.Do(name("txn.Set", prefix, key), func() error { return t.inner.Set(nsp(t.ns, prefix), key, value) })
 }
 
 func (t *Txn) SetMany(prefix []byte, n int, next func(int) (basedb.Obj, error)) error {
-	return t.in.Do(name("txn.SetMany", prefix, nil), func() error { return t.inner.SetMany(prefix, n, next) })
+	return t.in.Do(name("txn.SetMany", prefix, nil), func() error { return t.inner.SetMany(nsp(t.ns, prefix), n, next) })
 }
 
 func (t *Txn) Delete(prefix []byte, key []byte) error {
-	return t.in.Do(name("txn.Delete", prefix, key), func() error { return t.inner.Delete(prefix, key) })
+	return t.in.Do(name("txn.Delete", prefix, key), func() error { return t.inner.Delete(nsp(t.ns, prefix), key) })
 }
 
 func (t *Txn) Commit() error {
 	return t.in.Do("txn.Commit", func() error { return t.inner.Commit() })
 }
+
+// readTxn passes a read-only transaction through (namespaced).
+type readTxn struct {
+	inner basedb.ReadTxn
+	ns    []byte
+}
+
+func (t *readTxn) Get(prefix []byte, key []byte) (basedb.Obj, bool, error) {
+	return t.inner.Get(nsp(t.ns, prefix), key)
+}
+func (t *readTxn) GetMany(prefix []byte, keys [][]byte, it func(basedb.Obj) error) error {
+	return t.inner.GetMany(nsp(t.ns, prefix), keys, it)
+}
+func (t *readTxn) GetAll(prefix []byte, h func(int, basedb.Obj) error) error {
+	return t.inner.GetAll(nsp(t.ns, prefix), h)
+}
+func (t *readTxn) Discard() { t.inner.Discard() }
